@@ -61,6 +61,7 @@ def opTags (w : World) : Op → List String
         (shbTags w1 t (NV.Gen.C11.efunSat n)).map ("create:" ++ ·)
   | .living => ["enable_commands"]
   | .burn => ["eval_cost-used"]
+  | .rp => ["replace_program"]
 
 def runOpsT (w : World) (self : Nat) : List Op → World × List Ev × Status × List String
   | [] => (w, [], .ok, [])
@@ -130,7 +131,13 @@ def tickT (sc : Scripts) (w : World) : World × List Ev × List String :=
            (if w.hbs.isEmpty then "chb.timer_flags-without-HEARTBEAT:empty" else "chb.timer_flags-without-HEARTBEAT:list-kept")])
 
 def stepCmdT (sc : Scripts) (w : World) : Cmd → World × List Ev × List String
-  | .tick => if w.crashed then (w, [], []) else tickT sc w
+  | .tick =>
+    if w.crashed then (w, [], [])
+    else
+      match applyRp w with
+      | (w1, e1) =>
+        match tickT sc w1 with
+        | (w2, e2, tg) => (w2, e1 ++ e2, (e1.map (fun _ => "replace_programs:program-swapped")) ++ tg)
   | .op self op =>
     if w.crashed then (w, [], [])
     else if !w.known.contains self then (w, [.topNoObj self], [])
